@@ -46,7 +46,26 @@ def run(rep):
         w, h = rng.choice([(8, 8), (16, 6), (48, 16), (5, 5), (12, 9)])
         tok, _ = imggen.gen(rng, ct, depth, w, h, False, rng.choice(["fewcolors", "random", "bitrep", "gray"]), rng.choice(imggen.KEY_MODES), ncolors=rng.choice([2, 4, 16]))
         kind = k % 3
-        if kind == 0:
+        if k % 4 == 1:
+            # tie-prone stratum: tiny periodic indexed / gray images on which several filters reach exactly the same size, palette in
+            # non-luma order (so that a reduction candidate is evaluated and carried over into the fast path), many filters
+            w, h = rng.choice([(13, 3), (8, 4), (12, 3), (9, 5), (16, 2), (7, 7), (6, 3)])
+            ncol = rng.choice([2, 3, 4, 5, 6, 7])
+            fn = rng.choice([lambda x, y: (x * x + y) % ncol, lambda x, y: (x + y) % ncol, lambda x, y: x % ncol,
+                             lambda x, y: (x // 2 + y) % ncol, lambda x, y: (x * y) % ncol, lambda x, y: (x + 2 * y) % ncol])
+            idx = [[(fn(x, y),) for x in range(w)] for y in range(h)]
+            pal = [tuple(rng.randrange(256) for _ in range(3)) + (rng.choice([255, 255, 255, 0, 128]),) for _ in range(ncol)]
+            tok = pg.img_token(w, h, 3, 8, False, pal, pg.pack_image(idx, w, h, 3, 8, False))
+            allf = list(range(10)) if rng.random() < 0.6 else sorted(rng.sample(range(10), rng.choice([4, 6, 8])))
+            o = f"fast=1,zc={rng.choice([1, 3, 5, 6, 7])},filters={'+'.join(map(str, allf))}"
+            if rng.random() < 0.6:
+                o += ",bd=0"
+            if rng.random() < 0.2:
+                o += ",pal=0"
+            kind = -1
+        if kind == -1:
+            pass
+        elif kind == 0:
             fs = rng.sample(range(9), rng.choice([2, 3, 4]))
             o = f"fast=1,zc={rng.randrange(8)},filters={'+'.join(map(str, fs))}"
         elif kind == 1:
